@@ -31,19 +31,21 @@ type caseT struct {
 	Series  []seriesT `json:"series"`
 	Phase   []int     `json:"phase"`
 	Fill    int       `json:"fill"`
+	FillKey string    `json:"fill_key,omitempty"`
 	Cond    string    `json:"cond"`
 	GroupBy []string  `json:"group_by,omitempty"`
 	State   string    `json:"state"`
 }
 
 type inst struct {
-	ms     int // multiset number (differential key)
-	pool   string
-	series []seriesT
-	phase  []int
-	fill   int
-	metric string
-	class  string // all-before | split | all-after
+	ms      int // multiset number (differential key)
+	pool    string
+	series  []seriesT
+	phase   []int
+	fill    int
+	fillKey string // "" or a tag key of the alphabet that every filler series also carries (values "zf0"/"zf1")
+	metric  string
+	class   string // all-before | split | all-after
 
 	ids     []uint32 // series id of every element (valid once written)
 	written []bool
@@ -54,7 +56,7 @@ type inst struct {
 }
 
 func (I *inst) caseOf(c string, g []string, state string) caseT {
-	return caseT{Pool: I.pool, Series: I.series, Phase: I.phase, Fill: I.fill, Cond: c, GroupBy: g, State: state}
+	return caseT{Pool: I.pool, Series: I.series, Phase: I.phase, Fill: I.fill, FillKey: I.fillKey, Cond: c, GroupBy: g, State: state}
 }
 
 func (I *inst) desc() string {
@@ -73,6 +75,9 @@ func (I *inst) desc0() string {
 	d := "[" + strings.Join(p, " ") + "]"
 	if I.fill > 0 {
 		d += fmt.Sprintf(" after %d filler series", I.fill)
+		if I.fillKey != "" {
+			d += " carrying " + I.fillKey + "=zf0|zf1"
+		}
 	}
 	return d
 }
@@ -174,7 +179,11 @@ func (r *runner) writePhase(e *dbEnv, I *inst, ph int) {
 	if ph == 1 && I.fill > 0 {
 		ts := make([]map[string]string, 0, I.fill)
 		for i := 0; i < I.fill; i++ {
-			ts = append(ts, map[string]string{"fill1": fmt.Sprintf("f%03d", i/256), "fill2": fmt.Sprintf("g%03d", i%256)})
+			t := map[string]string{"fill1": fmt.Sprintf("f%03d", i/256), "fill2": fmt.Sprintf("g%03d", i%256)}
+			if I.fillKey != "" {
+				t[I.fillKey] = fmt.Sprintf("zf%d", i%2)
+			}
+			ts = append(ts, t)
 		}
 		ids, _ := e.write(I.metric, ts)
 		seen := map[uint32]bool{}
@@ -186,6 +195,9 @@ func (r *runner) writePhase(e *dbEnv, I *inst, ph int) {
 		}
 		I.nFill = I.fill
 		I.schema["fill1"], I.schema["fill2"] = true, true
+		if I.fillKey != "" {
+			I.schema[I.fillKey] = true
+		}
 	}
 	var ts []map[string]string
 	var idx []int
@@ -296,6 +308,9 @@ func (r *runner) evalInstance(e *dbEnv, I *inst, round string) {
 			if !I.schema[k] {
 				missingKey = true
 			}
+		}
+		if I.fill > 0 && I.fillKey != "" && c.info.keys[I.fillKey] {
+			continue // the filler series carry this key: conditions on it are not evaluated (the fillers are not part of the model)
 		}
 		if missingKey && c.info.atoms > 1 && r.onlyCond < 0 {
 			continue // rejected queries (unknown tag key) are only exercised with single-atom conditions
@@ -668,7 +683,7 @@ func main() {
 		_ = pprof.StartCPUProfile(fh)
 		defer pprof.StopCPUProfile()
 	}
-	debug.SetGCPercent(200)
+	debug.SetGCPercent(400)
 
 	thorough := f.Thorough()
 	condTexts := buildConditions(lvlBase)
@@ -693,11 +708,11 @@ func main() {
 			r.diff, r.diffAt = map[diffKey]string{}, map[diffKey]string{}
 			r.gdiff, r.gdiffAt = map[gdiffKey]string{}, map[gdiffKey]string{}
 			// the failing placement next to the all-in-memory placement of the same series (differential reference)
-			ref := &inst{ms: 0, pool: c.Pool, series: c.Series, phase: make([]int, len(c.Series)), fill: c.Fill}
+			ref := &inst{ms: 0, pool: c.Pool, series: c.Series, phase: make([]int, len(c.Series)), fill: c.Fill, fillKey: c.FillKey}
 			for j := range ref.phase {
 				ref.phase[j] = 1
 			}
-			r.runBatch([]*inst{ref, {ms: 0, pool: c.Pool, series: c.Series, phase: c.Phase, fill: c.Fill}})
+			r.runBatch([]*inst{ref, {ms: 0, pool: c.Pool, series: c.Series, phase: c.Phase, fill: c.Fill, fillKey: c.FillKey}})
 		}
 		r.w.close()
 		rep.Write()
@@ -738,31 +753,40 @@ func main() {
 
 	// ---- enumeration plan
 	type plan struct {
-		pool   string
-		series []seriesT
-		lo, hi int
-		fills  []int
-		lvl    int // condition set
+		pool    string
+		series  []seriesT
+		lo, hi  int
+		fills   []int
+		lvl     int // condition set
+		fillKey string
 	}
 	var plans []plan
 	if thorough {
 		plans = []plan{
-			{"product", productPool(), 1, 2, []int{0}, lvlFull},
-			{"sharp", sharpPool, 3, 3, []int{0}, lvlFull},
-			{"sharp", sharpPool, 4, 4, []int{0}, lvlAtoms},
-			{"boundary", boundaryPool, 3, 4, []int{65535, 65534}, lvlBase},
+			{"sharp", sharpPool, 1, 2, []int{0}, lvlFull, ""},
+			{"sharp", sharpPool, 3, 3, []int{0}, lvlBase, ""},
+			{"product", productPool(), 1, 2, []int{0}, lvlBase, ""},
+			{"sharp10", sharpPool[:10], 4, 4, []int{0}, lvlAtoms, ""},
+			{"boundary", boundaryPool, 3, 3, []int{65535, 65534}, lvlBase, ""},
+			{"boundary", boundaryPool, 4, 4, []int{65534}, lvlBase, ""},
+			{"container3", boundaryPool, 3, 3, []int{131071}, lvlAtoms, "zone"},
 		}
 	} else {
 		plans = []plan{
-			{"sharp", sharpPool, 1, 2, []int{0}, lvlBase},
-			{"sharp", sharpPool, 3, 3, []int{0}, lvlAtoms},
+			{"sharp", sharpPool, 1, 2, []int{0}, lvlBase, ""},
+			{"sharp12", sharp12(), 3, 3, []int{0}, lvlAtoms, ""},
+			{"boundary", smallBoundaryPool, 2, 2, []int{65535}, lvlAtoms, ""},
+			{"container3", smallBoundaryPool, 2, 2, []int{131071}, lvlAtoms, "zone"},
 		}
 	}
 	if len(f.Args) > 0 && f.Args[0] == "tiny" { // debugging aid: ./h -tier quick tiny
-		plans = []plan{{"sharp", sharpPool, 1, 2, []int{0}, lvlBase}}
+		plans = []plan{{"sharp", sharpPool, 1, 2, []int{0}, lvlBase, ""}}
+	}
+	if len(f.Args) > 0 && f.Args[0] == "tinyc" {
+		plans = []plan{{"boundary", boundaryPool, 3, 3, []int{131071}, lvlAtoms, "zone"}}
 	}
 	if len(f.Args) > 0 && f.Args[0] == "tinyb" {
-		plans = []plan{{"boundary", boundaryPool, 3, 3, []int{65535}, lvlBase}}
+		plans = []plan{{"boundary", boundaryPool, 3, 3, []int{65535}, lvlBase, ""}}
 	}
 
 	rep.Rule = "one evaluation = (multiset of series of one metric, placement of every series before/after the first index flush, index state, " +
@@ -813,10 +837,10 @@ func main() {
 					ser[i] = p.series[x]
 				}
 				for _, ph := range placements(ms) {
-					batch = append(batch, &inst{ms: int(msIdx), pool: p.pool, series: ser, phase: ph, fill: fill})
+					batch = append(batch, &inst{ms: int(msIdx), pool: p.pool, series: ser, phase: ph, fill: fill, fillKey: p.fillKey})
 					rep.Count("instances", 1)
 					if fill > 0 {
-						batchCost += 40
+						batchCost += 40 * (1 + fill/66000)
 					} else {
 						batchCost++
 					}
